@@ -635,6 +635,78 @@ def gen_stats(rng, fn):
     return {"fn": fn, "family": fn, "stat": gen_stat(rng)}
 
 
+def gen_boottime_seq(rng):
+    """a history of 2-4 boot_time() calls on DIFFERENT /proc/stat files (the clock was stepped in between: btime moves),
+    run back to back without resetting psutil's module global: a cached answer would show"""
+    k = rng.randrange(2, 5)
+    stats = [gen_stat(rng, rng.randrange(0, 3), allow_raw=rng.random() < 0.5) for _ in range(k)]
+    return {"fn": "boottime_seq", "family": "boottime_seq", "stats": stats}
+
+
+# how an 'unreadable' file fails (one mode per case, c19_redirect.UNREAD_MODES): at open() with EACCES / ENXIO, or at
+# read() with EIO / ENODATA / ENODEV (the open succeeds) — the model knows ONE unreadable state (fact: _common.cat
+# catches OSError around open AND read; the walkers catch OSError), so all five must behave alike
+def with_unread_mode(rng, case, p=0.5):
+    if rng.random() < p:
+        case["unread"] = rng.choice(c19_redirect.UNREAD_MODES[1:])
+    return case
+
+
+def force_unreadable(rng, case):
+    """family `read_fails`: make sure some consulted OPTIONAL file is unreadable (label / threshold / trip file / battery
+    alternative / policy file), then fail it at read() time"""
+    fn = case["fn"]
+    if fn == "temps":
+        for c in case["chips"]:
+            for s_ in c["temps"]:
+                for k in ("label", "max", "crit", "input"):
+                    if rng.random() < 0.35:
+                        s_[k] = False
+        for z in case["zones"]:
+            if rng.random() < 0.3:
+                z["typ"] = False
+            for t in z["trips"]:
+                if rng.random() < 0.4:
+                    t[rng.choice(["typ", "temp"])] = False
+    elif fn == "fans":
+        for c in case["chips"]:
+            for f in c["fans"]:
+                if rng.random() < 0.5:
+                    f[rng.choice(["label", "input"])] = False
+    elif fn == "battery":
+        for s_ in case["supplies"]:
+            for k in ("energy_now", "power_now", "energy_full", "time_to_empty_now", "capacity", "status", "online"):
+                if rng.random() < 0.3:
+                    s_[k] = False
+    elif fn == "cpufreq":
+        for p_ in case["policies"] + case["percpu_dirs"]:
+            for k in ("scaling_cur_freq", "cpuinfo_cur_freq"):
+                if rng.random() < 0.3:
+                    p_[k] = False
+        case["online"] = [[i, (False if rng.random() < 0.3 else f)] for i, f in case["online"]]
+    case["unread"] = rng.choice(c19_redirect.UNREAD_MODES[2:])
+    case["family"] = "read_fails"
+    return case
+
+
+DIR_NUMBERS = [0, 1, 2, 9, 10, 11, 12, 19, 20, 99, 100, 101, 255, 1000]
+
+
+def with_dir_numbers(rng, case):
+    """family `dir_index`: hwmonN / thermal_zoneN directories with two- and more-digit N (servers have hwmon10+;
+    the kernel numbers them without bound). At least one number ≥ 10."""
+    for key in ("chips", "zones"):
+        n = len(case.get(key, []))
+        if n:
+            nums = rng.sample(DIR_NUMBERS, n)
+            if all(x < 10 for x in nums):
+                nums[0] = rng.choice([10, 11, 100])
+            for e, x in zip(case[key], nums):
+                e["dirn"] = x
+    case["family"] = "dir_index"
+    return case
+
+
 # ------------------------------------------------------------------------------ case → driver line
 
 
@@ -699,6 +771,8 @@ def driver_line(case, orders=None):
                 "stat": case["stat"], "core": case["core"], "sib": case["sib"]}
     if fn in ("cpustats", "boottime"):
         return {"op": fn, "stat": case["stat"]}
+    if fn == "boottime_seq":
+        return {"op": fn, "stats": case["stats"]}
     raise ValueError(fn)
 
 
@@ -714,6 +788,9 @@ def render_requests(case):
     for key in ("core", "sib"):
         if isinstance(case.get(key), dict):
             out.append((key, {"op": "render", "what": "topology", "files": case[key]}))
+    for i, st in enumerate(case.get("stats", [])):
+        if isinstance(st, dict):
+            out.append(("stats%d" % i, {"op": "render", "what": "stat", "rec": st["rec"]}))
     return out
 
 
@@ -765,10 +842,15 @@ class Runner:
             # kernel-format topology: the files are the bytes the Lean renderer (Spec.kernelTopology cpuList) printed
             c2 = dict(case, **{k: rendered[k] for k in ("core", "sib") if isinstance(case.get(k), dict)})
             return I.run_cpucount(c2, self.file_bytes(case, "cpuinfo", rendered), self.file_bytes(case, "stat", rendered))
+        um = case.get("unread", "open_eacces")
         if fn == "cpustats":
-            return I.run_cpustats(self.file_bytes(case, "stat", rendered))
+            return I.run_cpustats(self.file_bytes(case, "stat", rendered), um)
         if fn == "boottime":
-            return I.run_boottime(self.file_bytes(case, "stat", rendered))
+            return I.run_boottime(self.file_bytes(case, "stat", rendered), um)
+        if fn == "boottime_seq":
+            sts = [rendered["stats%d" % i] if isinstance(st, dict) else c19_redirect.fs_of(st)
+                   for i, st in enumerate(case["stats"])]
+            return I.run_boottime_seq(sts, um)
         raise ValueError(fn)
 
     def run(self, cases, impl_outs=None):
@@ -798,6 +880,12 @@ def judge(case, impl, model, spec):
         for lvl in ("plat", "front"):
             ok_m &= res_match(impl[lvl], model[lvl], rows_match)
             ok_s &= res_match(impl[lvl], spec[lvl], rows_match)
+        return ok_s, ok_m
+    if fn == "boottime_seq":
+        ok_m = len(impl["calls"]) == len(model["calls"]) and close(impl["global"], model["global"]) \
+            and all(res_match(a, b, btime_eq) for a, b in zip(impl["calls"], model["calls"]))
+        ok_s = len(impl["calls"]) == len(spec["calls"]) \
+            and all(res_match(a, b, btime_eq) for a, b in zip(impl["calls"], spec["calls"]))
         return ok_s, ok_m
     eq = {"fans": fans_eq, "battery": None, "cpufreq": None, "cpucount": plain_eq, "cpustats": plain_eq,
           "boottime": btime_eq}[fn]
@@ -884,6 +972,11 @@ def temps_features(case, impl):
         f.add("zones_ignored")
     if case.get("coretemp"):
         f.add("coretemp")
+    if any(c.get("dirn", 0) >= 10 for c in case["chips"]):
+        f.add("hwmon_dir_index_ge_10")
+    if any(z.get("dirn", 0) >= 10 for z in case["zones"]):
+        f.add("thermal_zone_dir_index_ge_10")
+    _unread_features(case, f)
     if case["fahrenheit"]:
         f.add("fahrenheit")
     if impl.get("plat", {}).get("kind") == "ok" and not impl["plat"]["value"]:
@@ -893,8 +986,36 @@ def temps_features(case, impl):
     return f
 
 
+def _has_unreadable(x):
+    if x is False:
+        return True
+    if isinstance(x, dict):
+        return any(_has_unreadable(v) for v in x.values())
+    if isinstance(x, list):
+        return any(_has_unreadable(v) for v in x)
+    return False
+
+
+def _unread_features(case, f):
+    um = case.get("unread")
+    if um and _has_unreadable({k: v for k, v in case.items() if k not in ("fahrenheit", "dir", "variant", "percpu", "logical")}):
+        f.add("unreadable_fails_" + um)
+        if um.startswith("read_"):
+            f.add("unreadable_fails_at_read")
+
+
 def generic_features(case, impl):
     f = {"family_" + case.get("family", "?")}
+    _unread_features(case, f)
+    if case["fn"] == "boottime_seq":
+        vals = [c.get("value") for c in impl["calls"] if c.get("kind") == "ok"]
+        if len(set(vals)) >= 2:
+            f.add("btime_changed_between_calls")
+        if any(c.get("kind") == "exc" for c in impl["calls"]):
+            f.add("a_call_failed")
+        return f
+    if case["fn"] == "fans" and any(c.get("dirn", 0) >= 10 for c in case.get("chips", [])):
+        f.add("hwmon_dir_index_ge_10")
     if impl.get("kind") == "exc":
         f.add("exc_" + impl["exc"])
     elif impl.get("value") is None:
@@ -1090,10 +1211,78 @@ CORPUS = [
     {"fn": "temps", "family": "corpus_zero_thr", "fahrenheit": False, "coretemp": 0, "zones": [],
      "chips": [{"nested": False, "name": hx(b"nvme\n"), "fans": [],
                 "temps": [{"input": good_int(35000), "label": None, "max": good_int(0), "crit": good_int(84000), "other": False}]}]},
+    # finding C19-battery-no-power-supply-dir: no /sys/class/power_supply at all
+    {"fn": "battery", "family": "no_dir", "dir": False, "supplies": []},
+    # boot_time() twice, the clock stepped in between (btime 1000 → 1010): the second call must say 1010
+    {"fn": "boottime_seq", "family": "corpus_btime_history",
+     "stats": [hx(b"cpu  1 2 3\nbtime 1000\n"), hx(b"cpu  1 2 3\nbtime 1010\n")]},
+    # hwmon10 next to hwmon2 (glob patterns must match any number of digits)
+    {"fn": "temps", "family": "corpus_hwmon10", "fahrenheit": False, "coretemp": 0, "zones": [],
+     "chips": [{"nested": False, "dirn": 2, "name": hx(b"nvme\n"), "fans": [],
+                "temps": [{"input": good_int(35000), "label": None, "max": None, "crit": None, "other": False}]},
+               {"nested": False, "dirn": 10, "name": hx(b"k10temp\n"), "fans": [],
+                "temps": [{"input": good_int(45000), "label": None, "max": None, "crit": None, "other": False}]}]},
+    # a label that fails at read() with EIO: the sensor is still reported, without label
+    {"fn": "temps", "family": "corpus_label_eio", "fahrenheit": False, "coretemp": 0, "zones": [], "unread": "read_eio",
+     "chips": [{"nested": False, "name": hx(b"nvme\n"), "fans": [],
+                "temps": [{"input": good_int(35000), "label": False, "max": False, "crit": None, "other": False}]}]},
 ]
 
 
 def gen_case(rng, i):
+    return with_unread_mode(rng, _gen_case(rng, i), 0.4)
+
+
+def gen_round3(rng, k):
+    """round 3 families: directory numbers ≥ 10, read-time failures of optional files, boot_time histories"""
+    m = k % 8
+    if m == 0:
+        return with_dir_numbers(rng, gen_temps(rng, rng.choice(["basic", "nested", "missing", "big_index"])))
+    if m == 1:
+        return with_dir_numbers(rng, gen_temps(rng, rng.choice(["zones", "multi_trip", "many_trips"])))
+    if m == 2:
+        c = gen_fans(rng, rng.choice(["direct", "nested", "mixed"]))
+        while not c["chips"]:
+            c = gen_fans(rng, "mixed")
+        return with_dir_numbers(rng, c)
+    if m == 3:
+        return force_unreadable(rng, gen_temps(rng, rng.choice(["basic", "zones", "multi_trip", "nested"])))
+    if m == 4:
+        return force_unreadable(rng, gen_battery(rng, rng.choice(["normal", "names", "tte"])))
+    if m == 5:
+        return force_unreadable(rng, rng.choice([gen_fans(rng, "mixed"), gen_cpufreq(rng, "offline"), gen_cpufreq(rng, "plain")]))
+    if m == 7:
+        return gen_cpuinfo_other_arch(rng)
+    return gen_boottime_seq(rng)
+
+
+OTHER_ARCH_CPUINFO = [
+    # ARMv7 (older kernels): a capitalised header line, then one lower-case `processor` line per CPU
+    b"Processor\t: ARMv7 Processor rev 4 (v7l)\nprocessor\t: 0\nBogoMIPS\t: 38.40\n\nprocessor\t: 1\nBogoMIPS\t: 38.40\n\n",
+    b"Processor\t: ARMv7 Processor rev 10 (v7l)\nBogoMIPS\t: 790.52\nFeatures\t: swp half\n\n",
+    # arm64
+    b"processor\t: 0\nBogoMIPS\t: 48.00\nCPU implementer\t: 0x41\n\nprocessor\t: 1\nBogoMIPS\t: 48.00\n\n",
+    # s390x: `processor N: …` lines after a header
+    b"vendor_id       : IBM/S390\n# processors    : 2\nprocessor 0: version = FF\nprocessor 1: version = FF\n",
+    # upper-case variants of the two prefixes psutil lower()s before testing
+    b"PROCESSOR\t: 0\nCPU MHZ\t\t: 1000.000\n\nProcessor\t: 1\nCpu MHz\t\t: 1200.500\n\n",
+    b"model name\t: x\ncpu MHz\t\t: 800.000\n\n",
+]
+
+
+def gen_cpuinfo_other_arch(rng):
+    """/proc/cpuinfo as other architectures print it (not the x86 renderer: the specification is silent, the model
+    speaks): case-insensitive `processor` / `cpu mhz` prefixes, for cpu_count(logical=True) without sysconf and for
+    the cpuinfo variant of cpu_freq()"""
+    raw = hx(rng.choice(OTHER_ARCH_CPUINFO))
+    if rng.random() < 0.5:
+        return {"fn": "cpucount", "family": "cpuinfo_other_arch", "logical": True, "sysconf": None, "cpuinfo": raw,
+                "stat": gen_stat(rng, rng.randrange(0, 4), allow_raw=False), "core": [], "sib": []}
+    return {"fn": "cpufreq", "family": "cpuinfo_other_arch", "variant": False, "percpu": rng.random() < 0.5,
+            "policies": [], "percpu_dirs": [], "online": [], "cpuinfo": raw}
+
+
+def _gen_case(rng, i):
     slot = i % 20
     if slot < 8:
         return gen_temps(rng, TEMP_FAMILIES[(i // 20 * 8 + slot) % len(TEMP_FAMILIES)])
@@ -1165,6 +1354,9 @@ def correspond(ctx, res):
             cases.append(gen_battery(ctx.rng, ("names", "negative", "bat_padded", "tte")[k % 4]))
         for k in range(ctx.n(40, 1000)):
             cases.append(gen_fans(ctx.rng, ("fan_padded", "fan_big_index")[k % 2]))
+        # round 3: hwmonN / thermal_zoneN with N >= 10, read()-time failures, boot_time() histories
+        for k in range(ctx.n(160, 5000)):
+            cases.append(gen_round3(ctx.rng, k))
         quick = ctx.tier == "quick"
         ex_z = [zone_case_with_order(t) for t in exhaustive_zone_orders(3 if quick else 4)]
         ex_b = list(exhaustive_battery(quick))
@@ -1201,6 +1393,7 @@ def search(ctx, res, broken):
         directed += list(exhaustive_topology(3))
         directed += [gen_battery(ctx.rng, f) for f in ("tte", "negative", "names") for _ in range(40)]
         directed += [gen_temps(ctx.rng, f) for f in ("many_trips", "wide_index") for _ in range(20)]
+        directed += [gen_round3(ctx.rng, k) for k in range(240)]
         directed += [gen_cpucount(ctx.rng, f) for f in ("kernel_topology", "packages", "topology") for _ in range(40)]
         directed += [gen_case(ctx.rng, i) for i in range(ctx.n(300, 3000))]
         for c, io, mo, sp in runner.run(directed):
@@ -1222,6 +1415,15 @@ def _violates(runner, case):
 
 def _shrink_candidates(case):
     fn = case["fn"]
+    if case.get("unread"):
+        yield {k: v for k, v in case.items() if k != "unread"}
+    for key in ("chips", "zones"):
+        if any("dirn" in e for e in case.get(key, []) if isinstance(e, dict)):
+            yield dict(case, **{key: [{k: v for k, v in e.items() if k != "dirn"} for e in case[key]]})
+    if fn == "boottime_seq":
+        for i in range(len(case["stats"])):
+            if len(case["stats"]) > 1:
+                yield dict(case, stats=case["stats"][:i] + case["stats"][i + 1:])
     if fn == "temps":
         for i in range(len(case["chips"])):
             yield dict(case, chips=case["chips"][:i] + case["chips"][i + 1:])
